@@ -101,6 +101,8 @@ def run_case(case, ctx):
     via = (sub // 3) % 4 == 0
     cfg["layout"], cfg["configured_with"] = lay, "set_params" if via else "constructor"
     ctx.cls("layout=" + lay)
+    npsc = (sub // 7) % 3 == 0      # hyper-parameters given as NumPy scalars (numpy.True_, numpy.int64(3))
+    cfg["numpy_scalar_params"] = npsc
     Xin = pandas.DataFrame(X, columns=["c%d" % i for i in range(d)]) if cls == "frame" else X
     Xk = X.copy()
 
@@ -157,7 +159,8 @@ def run_case(case, ctx):
         numpy.random.seed(rs)
         m = layouts.build(ConstraintKMeans, dict(n_clusters=k, strategy=strategy, kmeans0=kmeans0, max_iter=max_iter,
                                                  random_state=rs, n_init=2), via,
-                          dict(n_clusters=k + 3, strategy="gain" if strategy == "distance" else "distance",
+                          as_numpy_scalars=npsc,
+                          decoys=dict(n_clusters=k + 3, strategy="gain" if strategy == "distance" else "distance",
                                kmeans0=not kmeans0, max_iter=max_iter + 11, n_init=1, balanced_predictions=False))
         if sub % 4 == 1 and n > k:
             # history: the same object was first used with the other family of strategies ('weights') on other
@@ -232,7 +235,7 @@ def run_case(case, ctx):
             ctx.violation(K + "predict/not-nearest-centre", "predict without balanced_predictions is not the "
                           "nearest centre", cfg=cfg)
         # ---- balanced predictions on several batch sizes
-        m.set_params(balanced_predictions=True)
+        m.set_params(balanced_predictions=numpy.True_ if npsc else True)
         for b in sorted({1, max(1, k - 1), k, k + 1, 3 * k + 2, min(n, 2 * k + 1)}):
             B = (X[rng.randint(n, size=b)] + rng.randn(b, d) * 0.5).astype(X.dtype)
             numpy.random.seed(rs + b)
